@@ -6,7 +6,7 @@ from typing import Any, Callable, Dict, List, Optional, Tuple, Union, Type
 
 import regex
 
-from .types import Artifact, RegexMatch
+from .types import Artifact, Interval, RegexMatch, Time
 
 logger = logging.getLogger(__name__)
 
@@ -100,6 +100,9 @@ def rule(*patterns: Union[str, Predicate]) -> Callable[[Any], ProductionRule]:
     def fwrapper(f: ProductionRule) -> ProductionRule:
         def wrapper(ts: datetime, *args: Artifact) -> Optional[Artifact]:
             res = f(ts, *args)
+            if res is not None and _is_impossible_date(res):
+                # matched but failed: 31.04., 30.02.2019, ...
+                return None
             if res is not None:
                 # upon a successful production, update the span
                 # information by expanding it to that of all args
@@ -110,6 +113,24 @@ def rule(*patterns: Union[str, Predicate]) -> Callable[[Any], ProductionRule]:
         return wrapper
 
     return fwrapper
+
+
+def _is_impossible_date(a: Optional[Artifact]) -> bool:
+    """True if the production denotes a calendar day that does not exist.
+
+    The patterns accept any day 1-31 with any month; without this check
+    rules assemble values like 2018-04-31, whose accessors raise later.
+    """
+    if isinstance(a, Interval):
+        return _is_impossible_date(a.t_from) or _is_impossible_date(a.t_to)
+    if isinstance(a, Time) and a.month is not None and a.day is not None:
+        # without a year the 29.02. is possible
+        year = a.year if a.year is not None else 2000
+        try:
+            datetime(year, a.month, a.day)
+        except ValueError:
+            return True
+    return False
 
 
 def regex_match(r_id: int) -> Predicate:
